@@ -25,17 +25,17 @@ def add(U):
 
     def pro(name, text):
         fc = F[('lexer.rs', name)]
-        fc.prologue = (fc.prologue or '') + ' ' + text
+        fc.tagged_prologue.append((text, 'C14', 'C14 proof hint'))
 
     # ---- whitespace
     ens('Lexer::whitespace', ('final(self).ci() == scan(%s, %s, p_ws())' % (CH, CI), 'C14', 'whitespace token = maximal run of blanks'))
     pro('Lexer::whitespace', fnfacts('char::is_ascii_whitespace', '&char', 'is_ws(c)'))
-    F[('lexer.rs', 'Lexer::whitespace')].body_proofs.append((r'TokenKind::Whitespace', 'proof { lemma_scan_unique(self.chars(), old(self).ci(), self.ci(), p_ws()); }'))
+    F[('lexer.rs', 'Lexer::whitespace')].body_proofs.append((r'TokenKind::Whitespace', 'proof { lemma_scan_unique(self.chars(), old(self).ci(), self.ci(), p_ws()); }', 'tags=C14'))
     # ---- line comment
     ens('Lexer::line_comment', ('final(self).ci() == scan(%s, %s, p_not_nl())' % (CH, CI), 'C14', 'line comment ends before the newline'))
     pro('Lexer::line_comment', 'proof { assert forall|k: int| #[trigger] pat_at::<char, _>(is_newline, self.chars(), k) implies (0 <= k < self.chars().len() && is_nl(self.chars()[k])) by { ax_at_fn(is_newline, self.chars(), k); } '
         'assert forall|k: int| #[trigger] pat_miss::<char, _>(is_newline, self.chars(), k) implies (0 <= k < self.chars().len() && !is_nl(self.chars()[k])) by { ax_at_fn(is_newline, self.chars(), k); } }')
-    F[('lexer.rs', 'Lexer::line_comment')].body_proofs.append((r'TokenKind::LineComment', 'proof { lemma_scan_unique(self.chars(), old(self).ci(), self.ci(), p_not_nl()); }'))
+    F[('lexer.rs', 'Lexer::line_comment')].body_proofs.append((r'TokenKind::LineComment', 'proof { lemma_scan_unique(self.chars(), old(self).ci(), self.ci(), p_not_nl()); }', 'tags=C14'))
     # ---- block comment (nesting)
     ens('Lexer::block_comment', ('match bc_end(%s, %s, 1) { Some(j) => final(self).ci() == j, None => true }' % (CH, CI), 'C14', 'block comments nest; token ends after the matching */'))
     F[('lexer.rs', 'Lexer::block_comment')].loops = {0: dict(
@@ -51,7 +51,7 @@ def add(U):
         ('forall|si: nat| si <= %s && boff(%s, si) == start ==> ret == kw_kind(%s.subrange(si as int, final(self).ci() as int))' % (CI, CH, CH),
          'C14 C20', 'keyword table: the identifier text decides the kind'))
     pro('Lexer::identifier', fnfacts('is_identifier_continue', 'char', 'is_ident_cont(c)'))
-    F[('lexer.rs', 'Lexer::identifier')].body_proofs.append((r'match ident \{', 'proof { lemma_scan_unique(self.chars(), old(self).ci(), self.ci(), p_ident_cont()); }'))
+    F[('lexer.rs', 'Lexer::identifier')].body_proofs.append((r'match ident \{', 'proof { lemma_scan_unique(self.chars(), old(self).ci(), self.ci(), p_ident_cont()); }', 'tags=C14'))
     # ---- bang operators
     ens('Lexer::bangoperator',
         ('final(self).ci() == scan(%s, %s, p_alpha())' % (CH, CI), 'C14', 'operator name = maximal run of letters'),
@@ -60,14 +60,14 @@ def add(U):
         ('bang_kind(%s.subrange(%s as int, final(self).ci() as int)) is None ==> ret == TokenKind::Error' % (CH, CI),
          'C20', 'bang operator table: the lexer accepts no operator outside the table the completion list is checked against'))
     pro('Lexer::bangoperator', fnfacts('char::is_ascii_alphabetic', '&char', 'is_alpha(c)') + ' proof { lemma_boff_mono(self.chars()); }')
-    F[('lexer.rs', 'Lexer::bangoperator')].body_proofs.append((r'match ident \{', 'proof { lemma_scan_unique(self.chars(), old(self).ci(), self.ci(), p_alpha()); assert(ident@ == self.chars().subrange(old(self).ci() as int, self.ci() as int)); }'))
+    F[('lexer.rs', 'Lexer::bangoperator')].body_proofs.append((r'match ident \{', 'proof { lemma_scan_unique(self.chars(), old(self).ci(), self.ci(), p_alpha()); assert(ident@ == self.chars().subrange(old(self).ci() as int, self.ci() as int)); }', 'tags=C14'))
     # ---- var name
     ens('Lexer::var_name',
         ('%s < %s.len() && is_ident_start(%s[%s as int]) ==> ret == TokenKind::VarName && final(self).ci() == scan(%s, %s + 1, p_ident_cont())' % (CI, CH, CH, CI, CH, CI),
          'C14', '$name'))
     pro('Lexer::var_name', fnfacts('is_identifier_continue', 'char', 'is_ident_cont(c)') +
         ' proof { assert forall|r: Seq<char>| #[trigger] pat_mlen::<char, _>(is_identifier_start, r) == (if r.len() > 0 && is_ident_start(r[0]) { Some(1nat) } else { None::<nat> }) by { ax_pat_fn(is_identifier_start, r); } }')
-    F[('lexer.rs', 'Lexer::var_name')].body_proofs.append((r'TokenKind::VarName', 'proof { lemma_scan_unique(self.chars(), old(self).ci() + 1, self.ci(), p_ident_cont()); }'))
+    F[('lexer.rs', 'Lexer::var_name')].body_proofs.append((r'TokenKind::VarName', 'proof { if old(self).ci() < self.chars().len() && is_ident_start(self.chars()[old(self).ci() as int]) && old(self).ci() + 1 <= self.ci() { lemma_scan_unique(self.chars(), old(self).ci() + 1, self.ci(), p_ident_cont()); } }', 'tags=C14'))
     # ---- code fragment
     ens('Lexer::code_fragment',
         ("find2(%s, %s, '}', ']') < %s.len() ==> ret == TokenKind::CodeFragment && final(self).ci() == find2(%s, %s, '}', ']') + 2" % (CH, CI, CH, CH, CI),
@@ -78,7 +78,7 @@ def add(U):
         'ax_at_str("}]", self.chars(), k); if 0 <= k && k + 2 <= self.chars().len() { assert(self.chars().subrange(k, k + 2) =~= seq![self.chars()[k], self.chars()[k + 1]]); } } '
         'assert forall|k: int| #[trigger] pat_miss::<(), &str>("}]", self.chars(), k) == !(0 <= k && k + 1 < self.chars().len() && self.chars()[k] == \'}\' && self.chars()[k + 1] == \']\') by { '
         'ax_at_str("}]", self.chars(), k); if 0 <= k && k + 2 <= self.chars().len() { assert(self.chars().subrange(k, k + 2) =~= seq![self.chars()[k], self.chars()[k + 1]]); } } }')
-    F[('lexer.rs', 'Lexer::code_fragment')].body_proofs.append((r'if self\.s\.eat_if\("\}\]"\)', 'proof { lemma_find2_unique(self.chars(), old(self).ci(), self.ci(), \'}\', \']\'); let r = rest(&self.s); if r.len() >= 2 { assert(r.subrange(0, 2) =~= seq![r[0], r[1]]); } }'))
+    F[('lexer.rs', 'Lexer::code_fragment')].body_proofs.append((r'if self\.s\.eat_if\("\}\]"\)', 'proof { lemma_find2_unique(self.chars(), old(self).ci(), self.ci(), \'}\', \']\'); let r = rest(&self.s); if r.len() >= 2 { assert(r.subrange(0, 2) =~= seq![r[0], r[1]]); } }', 'tags=C14'))
     # ---- string
     ens('Lexer::string',
         ('match str_end(%s, %s, false) { Some(j) => ret == TokenKind::StrVal && final(self).ci() == j, None => true }' % (CH, CI), 'C14', 'string literal with escapes'))
@@ -91,7 +91,7 @@ def add(U):
          'C14', '#ifdef/#ifndef/#else/#endif/#define, else paste'))
     pro('Lexer::preprocessor', 'proof { assert forall|c: char| #[trigger] pat_yes::<char, _>(char::is_alphabetic, c) implies uni_alphabetic(c) by { ax_yes_fn(char::is_alphabetic, c); } '
         'assert forall|c: char| #[trigger] pat_no::<char, _>(char::is_alphabetic, c) implies !uni_alphabetic(c) by { ax_no_fn(char::is_alphabetic, c); } }')
-    F[('lexer.rs', 'Lexer::preprocessor')].body_proofs.append((r'match ident \{', 'proof { lemma_scan_unique(self.chars(), old(self).ci(), self.ci(), p_uni_alpha()); }'))
+    F[('lexer.rs', 'Lexer::preprocessor')].body_proofs.append((r'match ident \{', 'proof { lemma_scan_unique(self.chars(), old(self).ci(), self.ci(), p_uni_alpha()); }', 'tags=C14'))
     # ---- numbers
     fc = F[('lexer.rs', 'Lexer::number')]
     fc.requires += [C('%s >= 1 && boff(%s, (%s - 1) as nat) == start && c == %s[%s - 1]' % (CI, CH, CI, CH, CI), 'C14', name='number() is entered after its first char'),
@@ -108,7 +108,7 @@ def add(U):
     fc.body_proofs.append((r'if base == 10 && c\.is_ascii_digit\(\)',
         'proof { if base == 2 { } '
         'else if base == 16 { lemma_scan_unique(self.chars(), old(self).ci() + 1, self.ci(), p_hex()); } '
-        'else { lemma_scan_unique(self.chars(), old(self).ci(), self.ci(), p_digit()); } }'))
+        'else { lemma_scan_unique(self.chars(), old(self).ci(), self.ci(), p_digit()); } }', 'tags=C14'))
     U.fns[('lexer.rs', 'interpret_number')].ensures = [C('ret.is_some() == num_ok(text@)', 'C14')]
     # ---- the dispatcher
     F[('lexer.rs', 'Lexer::next_token')].attrs += ['spinoff_prover', 'rlimit(60)']
